@@ -28,6 +28,22 @@ type script struct {
 	fail bool
 }
 
+// unencodable: a value json.Marshal rejects, in several guises — a failing MarshalJSON, and raw messages that are
+// not one JSON value (a NUL inside, a surplus brace, a truncated document; also behind a pointer). Nothing may be
+// written for any of them.
+func unencodable(k int) interface{} {
+	raws := []json.RawMessage{json.RawMessage("{\"a\":\"x\x00y\"}"), json.RawMessage(`{"a":1}}`), json.RawMessage(`{"a":[1,2`), json.RawMessage("{}\x00{}")}
+	switch k % 6 {
+	case 0:
+		return badPayload{}
+	case 1:
+		r := raws[(k/6)%len(raws)]
+		return &r
+	default:
+		return raws[k%len(raws)]
+	}
+}
+
 type badPayload struct{}
 
 func (badPayload) MarshalJSON() ([]byte, error) { return nil, errBad }
@@ -252,7 +268,7 @@ func (s *scriptedIface) VarlinkDispatch(ctx context.Context, c varlink.Call, met
 				err = c.Reply(ctx, nil)
 			}
 		case "rb":
-			err = c.Reply(ctx, badPayload{})
+			err = c.Reply(ctx, unencodable(len(inv.results)+len(methodname)))
 		case "e":
 			if a.has {
 				err = c.ReplyError(ctx, a.name, a.val)
@@ -260,7 +276,7 @@ func (s *scriptedIface) VarlinkDispatch(ctx context.Context, c varlink.Call, met
 				err = c.ReplyError(ctx, a.name, nil)
 			}
 		case "eb":
-			err = c.ReplyError(ctx, a.name, badPayload{})
+			err = c.ReplyError(ctx, a.name, unencodable(len(inv.results)+len(a.name)))
 		case "s":
 			switch a.kind {
 			case "i":
